@@ -291,7 +291,7 @@ def _cls_frame(c):
 
 
 def st_mismatch():
-    return st.tuples(st_frame(), st.sampled_from(["fixed_len", "truncated_under_fixed", "rule_clash", "no_room", "fixed_with_var_props"]), st.integers(1, 20)).map(
+    return st.tuples(st_frame(), st.sampled_from(["fixed_len", "truncated_under_fixed", "rule_clash", "no_room", "fixed_with_var_props", "truncated_with_fixed_props"]), st.integers(1, 20)).map(
         lambda t: {"frame": t[0], "how": t[1], "delta": t[2]}
     )
 
@@ -343,12 +343,18 @@ def check_mismatch(m):
         if trunc:
             return devs
         expect_raise(devs, "mismatch.fixed_with_var_props", F.TransferFrame.unpack, raw, F.FrameType.FIXED, props, accept=(ValueError,))
+    elif how == "truncated_with_fixed_props":
+        # a truncated frame needs the truncated frame length, which only the variable-frame parameter object carries
+        if not trunc:
+            return devs
+        props = F.FixedFrameProperties(fixed_len=n, has_insert_zone=False, has_fecf=False)
+        expect_raise(devs, "mismatch.truncated_with_fixed_props", F.TransferFrame.unpack, raw, F.FrameType.VARIABLE, props, accept=(ValueError,))
     return devs
 
 
 def _cls_mismatch(m):
     c = m["frame"]
-    applicable = {"fixed_len": c["kind"] == "fixed", "truncated_under_fixed": c["kind"] == "truncated", "rule_clash": c["kind"] != "truncated", "no_room": True, "fixed_with_var_props": c["kind"] != "truncated"}[m["how"]]
+    applicable = {"fixed_len": c["kind"] == "fixed", "truncated_under_fixed": c["kind"] == "truncated", "rule_clash": c["kind"] != "truncated", "no_room": True, "fixed_with_var_props": c["kind"] != "truncated", "truncated_with_fixed_props": c["kind"] == "truncated"}[m["how"]]
     return [m["how"]] if applicable else ["not applicable"]
 
 
@@ -420,7 +426,7 @@ CLAUSES = [
         check=check_mismatch,
         nontrivial=lambda m: _cls_mismatch(m) != ["not applicable"],
         classify=_cls_mismatch,
-        required=["fixed_len", "truncated_under_fixed", "rule_clash", "no_room", "fixed_with_var_props"],
+        required=["fixed_len", "truncated_under_fixed", "rule_clash", "no_room", "fixed_with_var_props", "truncated_with_fixed_props"],
         n={"quick": 1500, "thorough": 10000},
     ),
 ]
